@@ -7,6 +7,7 @@ import (
 	"errors"
 	"fmt"
 	"io/ioutil"
+	"math"
 	"math/rand"
 	"os"
 	"sort"
@@ -23,11 +24,11 @@ import (
 // ---- case description ----
 
 type TRef struct {
-	Nil  bool `json:"nil,omitempty"`
-	ID   int  `json:"id"`             // 0 = empty ID
-	NoFn bool `json:"nofn,omitempty"` // nil function
-	Fresh bool `json:"fresh,omitempty"` // a new *Task object with the same ID and function
-	Src   string `json:"src,omitempty"` // "" the task object itself; "g" the expression g.Task(id); "m" tm.Get(id)
+	Nil   bool   `json:"nil,omitempty"`
+	ID    int    `json:"id"`              // 0 = empty ID
+	NoFn  bool   `json:"nofn,omitempty"`  // nil function
+	Fresh bool   `json:"fresh,omitempty"` // a new *Task object with the same ID and function
+	Src   string `json:"src,omitempty"`   // "" the task object itself; "g" the expression g.Task(id); "m" tm.Get(id)
 }
 
 type DagOp struct {
@@ -38,21 +39,21 @@ type DagOp struct {
 }
 
 type DagCase struct {
-	Dag      bool             `json:"dag"`
-	Prop     string           `json:"prop"`
-	ID       int              `json:"id"`
-	Ops      []DagOp          `json:"ops"`
-	Serial   bool             `json:"serial,omitempty"`
-	Max      int              `json:"max,omitempty"`
-	Buffer   bool             `json:"buffer,omitempty"`
+	Dag      bool                `json:"dag"`
+	Prop     string              `json:"prop"`
+	ID       int                 `json:"id"`
+	Ops      []DagOp             `json:"ops"`
+	Serial   bool                `json:"serial,omitempty"`
+	Max      int                 `json:"max,omitempty"`
+	Buffer   bool                `json:"buffer,omitempty"`
 	Outcomes map[string][]string `json:"outcomes"` // task id -> outcome per attempt: ok err skip
-	CtlSeed  int64            `json:"ctlseed"`
-	CancelAt int              `json:"cancelat"` // controller step at which the context is cancelled (-1: never)
-	Shared   bool             `json:"shared,omitempty"` // run a second graph sharing the Task objects concurrently
-	BigOut   bool             `json:"bigout,omitempty"` // odd tasks write more than 64 KiB per attempt
-	Names    bool             `json:"names,omitempty"`  // task IDs are words with separators, spaces, case twins instead of numbers
-	WithTM   bool             `json:"withtm,omitempty"` // a TaskMap is used (tmadd ops, "m" references) and handed to Validate
-	WithAPI  bool             `json:"withapi,omitempty"` // tasks come from a TaskMap (made anew for every graph built from the history)
+	CtlSeed  int64               `json:"ctlseed"`
+	CancelAt int                 `json:"cancelat"`          // controller step at which the context is cancelled (-1: never)
+	Shared   bool                `json:"shared,omitempty"`  // run a second graph sharing the Task objects concurrently
+	BigOut   bool                `json:"bigout,omitempty"`  // odd tasks write more than 64 KiB per attempt
+	Names    bool                `json:"names,omitempty"`   // task IDs are words with separators, spaces, case twins instead of numbers
+	WithTM   bool                `json:"withtm,omitempty"`  // a TaskMap is used (tmadd ops, "m" references) and handed to Validate
+	WithAPI  bool                `json:"withapi,omitempty"` // tasks come from a TaskMap (made anew for every graph built from the history)
 }
 
 // IDs handed to the library: the decimal number, or (Names) a word chosen so that IDs contain each other,
@@ -139,9 +140,9 @@ type iVertex struct {
 }
 
 type iGraph struct {
-	order []int
-	v     map[int]*iVertex
-	errs  []string
+	order  []int
+	v      map[int]*iVertex
+	errs   []string
 	tm     map[int]bool // TaskMap: id -> the task has a function
 	tmErrs []string
 }
@@ -403,12 +404,12 @@ type tstate struct {
 }
 
 type dagRun struct {
-	c      *DagCase
-	ig     *iGraph
-	mu     sync.Mutex
-	cond   *sync.Cond
-	events []dagEvent
-	ts     map[int]*tstate
+	c             *DagCase
+	ig            *iGraph
+	mu            sync.Mutex
+	cond          *sync.Cond
+	events        []dagEvent
+	ts            map[int]*tstate
 	pendingPseudo int
 	holders       int
 	lastIdle      bool
@@ -426,7 +427,7 @@ type dagRun struct {
 	g2events      []dagEvent
 	sharedNow     map[int]*int32
 	g2ran         []int32 // per task: its function has returned in the second graph
-	second        int32 // set once the first Run has returned
+	second        int32   // set once the first Run has returned
 	secondEntered int32
 }
 
@@ -1616,6 +1617,11 @@ func genDagCase(r *rand.Rand, id int, prop string) *DagCase {
 			c.Ops = append(c.Ops, DagOp{Op: "retries", T: ref(i), N: retries})
 		} else if r.Intn(40) == 0 {
 			c.Ops = append(c.Ops, DagOp{Op: "retries", T: ref(i), N: -1 - r.Intn(2)})
+		} else if r.Intn(40) == 0 {
+			// "retry for ever": the largest int and its neighbours, 32-bit boundaries (the task succeeds after
+			// at most three attempts: attempts past the listed outcomes return nil)
+			retries = 1 + r.Intn(2)
+			c.Ops = append(c.Ops, DagOp{Op: "retries", T: ref(i), N: []int{math.MaxInt, math.MaxInt - 1, math.MaxInt32, math.MaxInt32 + 1, 1 << 32}[r.Intn(5)]})
 		}
 		var outs []string
 		for k := 0; k <= retries; k++ {
